@@ -1,0 +1,228 @@
+//! Verification hooks (compiled only with `--cfg cardinalsin_verif`).
+//!
+//! Nothing in here changes behaviour unless a simulator installs a hook on the
+//! current thread: with no hook installed every shim performs the plain file
+//! operation and every pause point is a no-op.
+//!
+//! * `shim_std` / `shim_tokio` shadow the names `std` / `tokio` inside
+//!   `ingester/wal.rs` so that the WAL's file-system calls run synchronously on
+//!   the calling thread and consult [`FS_HOOK`] first (fault injection, torn
+//!   writes, crash fencing).
+//! * [`pause`] is a named await point a simulator can park a task at.
+
+use ::std::cell::{Cell, RefCell};
+use ::std::io;
+
+/// What the simulator wants a shimmed file-system call to do.
+#[derive(Debug, Clone)]
+pub enum FsAction {
+    /// Perform the call.
+    Proceed,
+    /// Fail with this OS error number, nothing applied.
+    Fail(i32),
+    /// Write at most this many bytes (legal short write).
+    Short(usize),
+    /// Write this many bytes, then the process is considered dead.
+    TornThenDie(usize),
+    /// The caller belongs to a dead process: never complete.
+    Freeze,
+}
+
+pub type FsHook = Box<dyn Fn(&str, &::std::path::Path, usize) -> FsAction>;
+
+thread_local! {
+    pub static FS_HOOK: RefCell<Option<FsHook>> = const { RefCell::new(None) };
+    /// Bumped by the simulator when the process owning the open files dies;
+    /// files opened under an older epoch never complete another operation.
+    pub static FS_EPOCH: Cell<u64> = const { Cell::new(0) };
+}
+
+pub fn fs_pre(op: &str, path: &::std::path::Path, len: usize) -> FsAction {
+    FS_HOOK.with(|h| match h.borrow().as_ref() {
+        Some(f) => f(op, path, len),
+        None => FsAction::Proceed,
+    })
+}
+
+fn act_to_res(a: FsAction) -> io::Result<()> {
+    match a {
+        FsAction::Fail(e) => Err(io::Error::from_raw_os_error(e)),
+        FsAction::TornThenDie(_) | FsAction::Freeze => Err(io::Error::other("sim: node died")),
+        _ => Ok(()),
+    }
+}
+
+pub mod shim_std {
+    pub use ::std::*;
+    pub mod fs {
+        use super::super::{fs_pre, FsAction};
+        pub use ::std::fs::{read_dir, File};
+        pub fn write<P: AsRef<::std::path::Path>, C: AsRef<[u8]>>(
+            p: P,
+            c: C,
+        ) -> ::std::io::Result<()> {
+            let c = c.as_ref();
+            match fs_pre("std.write", p.as_ref(), c.len()) {
+                FsAction::Fail(e) => Err(::std::io::Error::from_raw_os_error(e)),
+                FsAction::Freeze => Err(::std::io::Error::other("sim: node died")),
+                FsAction::TornThenDie(n) | FsAction::Short(n) => {
+                    ::std::fs::write(p, &c[..n.min(c.len())])?;
+                    Err(::std::io::Error::other("sim: node died"))
+                }
+                FsAction::Proceed => ::std::fs::write(p, c),
+            }
+        }
+        pub fn read<P: AsRef<::std::path::Path>>(p: P) -> ::std::io::Result<Vec<u8>> {
+            ::std::fs::read(p)
+        }
+    }
+}
+
+pub mod shim_tokio {
+    pub use ::tokio::*;
+    pub mod fs {
+        use super::super::{act_to_res, fs_pre, FsAction, FS_EPOCH};
+        use ::std::io::{self, Write};
+        use ::std::path::{Path, PathBuf};
+        use ::std::pin::Pin;
+        use ::std::task::{Context, Poll};
+
+        pub struct File {
+            f: ::std::fs::File,
+            path: PathBuf,
+            epoch: u64,
+        }
+        pub struct Metadata(::std::fs::Metadata);
+        impl Metadata {
+            #[allow(clippy::len_without_is_empty)]
+            pub fn len(&self) -> u64 {
+                self.0.len()
+            }
+        }
+        impl File {
+            fn dead(&self) -> bool {
+                self.epoch != FS_EPOCH.with(|e| e.get())
+            }
+            pub async fn metadata(&self) -> io::Result<Metadata> {
+                self.f.metadata().map(Metadata)
+            }
+            pub async fn sync_data(&self) -> io::Result<()> {
+                if self.dead() {
+                    return ::std::future::pending().await;
+                }
+                match fs_pre("sync", &self.path, 0) {
+                    FsAction::Freeze | FsAction::TornThenDie(_) => ::std::future::pending().await,
+                    a => act_to_res(a)?,
+                }
+                self.f.sync_data()
+            }
+            pub async fn sync_all(&self) -> io::Result<()> {
+                if self.dead() {
+                    return ::std::future::pending().await;
+                }
+                self.f.sync_all()
+            }
+        }
+        impl ::tokio::io::AsyncWrite for File {
+            fn poll_write(
+                mut self: Pin<&mut Self>,
+                _cx: &mut Context<'_>,
+                buf: &[u8],
+            ) -> Poll<io::Result<usize>> {
+                if self.dead() {
+                    return Poll::Pending;
+                }
+                let path = self.path.clone();
+                match fs_pre("write", &path, buf.len()) {
+                    FsAction::Freeze => Poll::Pending,
+                    FsAction::Fail(e) => Poll::Ready(Err(io::Error::from_raw_os_error(e))),
+                    FsAction::Short(n) => {
+                        let n = n.clamp(1, buf.len().max(1)).min(buf.len());
+                        Poll::Ready(self.f.write(&buf[..n]))
+                    }
+                    FsAction::TornThenDie(n) => {
+                        let n = n.min(buf.len());
+                        let _ = self.f.write_all(&buf[..n]);
+                        Poll::Pending
+                    }
+                    FsAction::Proceed => Poll::Ready(self.f.write(buf)),
+                }
+            }
+            fn poll_flush(self: Pin<&mut Self>, _cx: &mut Context<'_>) -> Poll<io::Result<()>> {
+                Poll::Ready(Ok(()))
+            }
+            fn poll_shutdown(self: Pin<&mut Self>, _cx: &mut Context<'_>) -> Poll<io::Result<()>> {
+                Poll::Ready(Ok(()))
+            }
+        }
+
+        #[derive(Default)]
+        pub struct OpenOptions {
+            o: Option<::std::fs::OpenOptions>,
+        }
+        impl OpenOptions {
+            pub fn new() -> Self {
+                Self {
+                    o: Some(::std::fs::OpenOptions::new()),
+                }
+            }
+            pub fn create(&mut self, v: bool) -> &mut Self {
+                self.o.as_mut().unwrap().create(v);
+                self
+            }
+            pub fn append(&mut self, v: bool) -> &mut Self {
+                self.o.as_mut().unwrap().append(v);
+                self
+            }
+            pub fn read(&mut self, v: bool) -> &mut Self {
+                self.o.as_mut().unwrap().read(v);
+                self
+            }
+            pub async fn open(&self, path: impl AsRef<Path>) -> io::Result<File> {
+                match fs_pre("open", path.as_ref(), 0) {
+                    FsAction::Freeze => return ::std::future::pending().await,
+                    FsAction::TornThenDie(_) => {
+                        // the file is created, then the process dies
+                        let _ = self.o.as_ref().unwrap().open(path.as_ref());
+                        return ::std::future::pending().await;
+                    }
+                    a => act_to_res(a)?,
+                }
+                Ok(File {
+                    f: self.o.as_ref().unwrap().open(path.as_ref())?,
+                    path: path.as_ref().to_path_buf(),
+                    epoch: FS_EPOCH.with(|e| e.get()),
+                })
+            }
+        }
+        pub async fn create_dir_all(p: impl AsRef<Path>) -> io::Result<()> {
+            ::std::fs::create_dir_all(p)
+        }
+        pub async fn remove_file(p: impl AsRef<Path>) -> io::Result<()> {
+            match fs_pre("remove", p.as_ref(), 0) {
+                FsAction::Freeze => return ::std::future::pending().await,
+                FsAction::TornThenDie(_) => {
+                    let _ = ::std::fs::remove_file(p.as_ref());
+                    return ::std::future::pending().await;
+                }
+                a => act_to_res(a)?,
+            }
+            ::std::fs::remove_file(p)
+        }
+    }
+}
+
+pub type PauseFuture = ::std::pin::Pin<Box<dyn ::std::future::Future<Output = ()> + Send>>;
+pub type PauseHook = Box<dyn Fn(&'static str) -> PauseFuture>;
+
+thread_local! {
+    pub static PAUSE_HOOK: RefCell<Option<PauseHook>> = const { RefCell::new(None) };
+}
+
+/// Named pause point: a no-op unless a simulator installed a hook on this thread.
+pub async fn pause(site: &'static str) {
+    let fut = PAUSE_HOOK.with(|h| h.borrow().as_ref().map(|f| f(site)));
+    if let Some(f) = fut {
+        f.await
+    }
+}
